@@ -323,6 +323,30 @@ def run_ops(case):
         return n
 
     a, b, o = build(a_l), build(b_l), build(o_l)
+    # labels may also be given as str; the limits are about octets (UTF-8 for str labels)
+    for mult, ch in ((1, "a"), (2, "\u00e9"), (3, "\u20ac"), (4, "\U0001F600")):
+        for n in sorted({case["depth"] % 70 + 1, 63 // mult, 63 // mult + 1, 64}):
+            sl = [ch * n, "x", ""]
+            bad = _valid([x.encode() for x in sl])
+            try:
+                nm = dns.name.Name(sl)
+            except (dns.name.LabelTooLong, dns.name.NameTooLong, dns.name.EmptyLabel):
+                if bad is None:
+                    raise Violation("limits", f"Name({sl!r}) refused a legal name", "ctor-str-refuse")
+                classes.add("str-label-invalid-raises")
+                continue
+            if bad is not None:
+                raise Violation("limits", f"Name() accepted str labels giving {bad}: {sl!r}", "ctor-str-accept")
+            if nm.labels != tuple(x.encode() for x in sl):
+                raise Violation("limits", f"Name({sl!r}) holds {nm.labels!r}", "ctor-str-labels")
+        wide = [(ch * (63 // mult)) for _ in range(4)] + [""]
+        if _valid([x.encode() for x in wide]) is not None:
+            try:
+                dns.name.Name(wide)
+            except dns.name.NameTooLong:
+                classes.add("str-name-too-long-raises")
+            else:
+                raise Violation("limits", f"Name() accepted str labels totalling more than 255 octets", "ctor-str-accept-long")
     if a is None or b is None or o is None:
         return {"nontrivial": True, "classes": sorted(classes)}
 
